@@ -247,6 +247,14 @@ class SymDate:
     def isoformat(self):
         return f"{self.year}-{self.month}-{self.day}"
 
+    def toordinal(self):
+        return days_before_year(self.year) + self.doy
+
+    def __sub__(self, other):
+        if isinstance(other, SymDate):
+            return SymTimedelta(days=self.toordinal() - other.toordinal())
+        return self + SymTimedelta(days=-other.days)
+
     def __add__(self, td):
         j = self.doy + td.days
         n = days_in_year(self.year)
@@ -254,6 +262,8 @@ class SymDate:
             return SymDate(self.year, doy=j)
         if n < j <= n + 365:
             return SymDate(self.year + 1, doy=j - n)  # date_from_doy(y, 366) in a common year is Jan 1 of y+1
+        if -365 <= j < 1:
+            return SymDate(self.year - 1, doy=j + days_in_year(self.year - 1))
         raise OverflowError("stub: addition leaves the modelled range")
 
 
